@@ -23,7 +23,7 @@
    "behaves identically" follows from "all non-transient members equal" only under the assumption
    that behaviour is a function of those members and of the constructor-supplied structure. *)
 From Coq Require Import List Arith Bool ZArith String.
-From SharkV Require Import C18Model C18Proofs C18Nested C18NestedProofs.
+From SharkV Require Import C18Model C18Proofs C18Nested C18NestedProofs C18Text C18TextProofs.
 Import ListNotations.
 Open Scope list_scope.
 
@@ -165,3 +165,49 @@ Theorem C18_data_desc_prim_same_layout : forall k vs dims numel,
   nwrite (data_desc (DPrim k)) (data_val (map NPrim vs) (shape_val dims numel)).
 Proof. exact data_desc_prim_same_layout. Qed.
 Print Assumptions C18_data_desc_prim_same_layout.
+
+(* ------------------------------------------------------------------------------------------------ *)
+(* text / binary archives: the stream of a vector as coded in remora vector::serialize (C18Text.v) *)
+
+Theorem C18_text_vec_roundtrip_aligned : forall A (pr : A -> String.string) (pa : String.string -> option A) (dflt : A),
+  (forall a, pa (pr a) = Some a) ->
+  forall v target rest, text_load_vec pa dflt target (text_save_vec pr v ++ rest) = Some (v, rest).
+Proof. exact text_vec_roundtrip_aligned. Qed.
+Print Assumptions C18_text_vec_roundtrip_aligned.
+
+Theorem C18_text_empty_vec_is_one_word : forall A (pr : A -> String.string), text_save_vec pr [] = ["0"%string].
+Proof. exact text_empty_vec_is_one_word. Qed.
+Print Assumptions C18_text_empty_vec_is_one_word.
+
+Theorem C18_text_empty_vec_aligned : forall A (pa : String.string -> option A) (dflt : A) target rest,
+  text_load_vec pa dflt target ("0"%string :: rest) = Some ([], rest).
+Proof. exact text_empty_vec_aligned. Qed.
+Print Assumptions C18_text_empty_vec_aligned.
+
+Theorem C18_text_vecs_roundtrip_aligned : forall A (pr : A -> String.string) (pa : String.string -> option A) (dflt : A),
+  (forall a, pa (pr a) = Some a) ->
+  forall vs targets rest, List.length targets = List.length vs ->
+    load_vecs String.string text_dec_count A (text_dec pa) dflt targets (text_save_vecs pr vs ++ rest) = Some (vs, rest).
+Proof. exact text_vecs_roundtrip_aligned. Qed.
+Print Assumptions C18_text_vecs_roundtrip_aligned.
+
+Theorem C18_text_vec_chars_roundtrip : forall A (pr : A -> String.string) (v : list A),
+  (forall a, word (pr a) = true) ->
+  lex (render (text_save_vec pr v)) = print_count (List.length v) :: map pr v.
+Proof. exact text_vec_chars_roundtrip. Qed.
+Print Assumptions C18_text_vec_chars_roundtrip.
+
+(* seeded change C18-3 (early return before the resize): aligned, silent, and stale for an empty vector *)
+Theorem C18_vec_early_return_empty_keeps_stale_target :
+  forall item enc_count dec_count A (enc : A -> list item) dec (dflt : A) target rest,
+  count_ok item enc_count dec_count 0 ->
+  load_vec_early_return item dec_count A dec dflt target (save_vec item enc_count A enc [] ++ rest) = Some (target, rest).
+Proof. exact early_return_empty_keeps_stale_target. Qed.
+Print Assumptions C18_vec_early_return_empty_keeps_stale_target.
+
+Theorem C18_bin_vec_roundtrip_aligned : forall A (enc : A -> list nat) (dec : list nat -> option (A * list nat)) (dflt : A),
+  (forall a r, dec (enc a ++ r) = Some (a, r)) ->
+  forall v target rest, List.length v < 256 ^ 8 ->
+    load_vec nat bin_dec_count A dec dflt target (save_vec nat bin_enc_count A enc v ++ rest) = Some (v, rest).
+Proof. exact bin_vec_roundtrip_aligned. Qed.
+Print Assumptions C18_bin_vec_roundtrip_aligned.
